@@ -15,6 +15,18 @@ case-insensitive), and every (seed, rewrite closure) is loaded in both orders,
 each order in a freshly forked process that has not loaded anything before - so
 that state kept between key lines, between sections, or between loads cannot
 hide behind a fixed load order.
+
+Whitespace axis (wave 5): the breadth-first search writes ONE indentation, ONE
+trailing string and always terminates the last line.  Here a strided subset of the
+seeds is written under every line-termination form (LF / CRLF, last line
+terminated or not) and, under each form, with every whitespace string of a small
+alphabet before / after / around every line, every blank-line content and
+several comment forms at every position (one line at a time).
+
+Derivation axis (wave 5): the containers of the key-type family get their
+declarations and their key type either directly or through `extends` from a base
+type with a key type of its own (inherited or overridden), every combination;
+the key-case rewrite follows the EFFECTIVE key type of the enclosing container.
 """
 import itertools
 
@@ -435,9 +447,231 @@ def kt_shard(member, acc):
 
 
 # ---------------------------------------------------------------------------
+# the whitespace axis (wave 5): WHICH whitespace stands before / after a line, what a blank or a comment line is
+# made of, and how the lines of the text are terminated (in particular: whether the last line is) - every
+# combination of a small alphabet, one line at a time, under every termination form.
+
+WS_CHARS = {"quick": (" ", "\t", "\r", "\x0c", "\u2003"),
+            "thorough": (" ", "\t", "\r", "\x0c", "\u2003", "\x0b", "\xa0", "\x1f", "\x85", "\u2028", "\u3000")}
+WS_CORE = {"quick": (" ", "\t", "\u2003"), "thorough": (" ", "\t", "\r", "\x0c", "\u2003")}
+# (line terminator, is the last line terminated?)
+WS_FORMS = {"quick": (("\n", True), ("\n", False)),
+            "thorough": (("\n", True), ("\n", False), ("\r\n", True), ("\r\n", False))}
+WS_COMMENTS = ("#", "#c", "\t#\t<a> %b $c", "#</x>")
+WS_SEED_STRIDE = {"quick": 4, "thorough": 1}        # every n-th of the capped corpus seeds of a member
+
+
+def ws_strings(tier):
+    """The whitespace strings put on one side of a line: every single character of the alphabet, every pair over
+    the core alphabet (thorough: also every triple over blank and tab)."""
+    out = list(WS_CHARS[tier])
+    out += [a + b for a in WS_CORE[tier] for b in WS_CORE[tier]]
+    if tier != "quick":
+        out += ["".join(t) for t in itertools.product(" \t", repeat=3)]
+    return out
+
+
+def ws_blanks(tier):
+    return [""] + list(WS_CHARS[tier]) + [" \t"]
+
+
+def ws_variants(lines, tier):
+    """Yield (label, new_lines): every whitespace string before, and after, every non-blank line; every pair of
+    core characters around it; every blank-line content and every comment line at every position."""
+    n = len(lines)
+    strings = ws_strings(tier)
+    core = WS_CORE[tier]
+    yield "ws-none", lines
+    for i in range(n):
+        if lines[i].strip() == "":
+            continue
+        for w in strings:
+            yield "ws-leading", lines[:i] + [w + lines[i]] + lines[i + 1:]
+            yield "ws-trailing", lines[:i] + [lines[i] + w] + lines[i + 1:]
+        for a in core:
+            for b in core:
+                yield "ws-both", lines[:i] + [a + lines[i] + b] + lines[i + 1:]
+    for i in range(n + 1):
+        for w in ws_blanks(tier):
+            yield "ws-blank-line", lines[:i] + [w] + lines[i:]
+        for c in WS_COMMENTS:
+            yield "ws-comment-line", lines[:i] + [c] + lines[i:]
+
+
+def ws_form_name(eol, terminated):
+    return "%s%s" % ("LF" if eol == "\n" else "CRLF", "" if terminated else "-last-line-unterminated")
+
+
+def ws_explore(sch, seed_text, acc, mid, tier):
+    """The seed's lines under every line-termination form x every whitespace variant; every text must give the
+    seed's outcome."""
+    base = outcome(sch, seed_text)
+    acc.ev()
+    seed_lines = seed_text.rstrip("\n").split("\n") if seed_text.strip("\n") else []
+    if base[0] == "internal" or not seed_lines:
+        return
+    acc.cls("ws-seed-" + base[0])
+    acc.extra["ws-seeds"] += 1
+    seen = {seed_text}
+    for eol, terminated in WS_FORMS[tier]:
+        form = ws_form_name(eol, terminated)
+        for label, new in ws_variants(seed_lines, tier):
+            text = eol.join(new) + (eol if terminated else "")
+            if text in seen:
+                continue
+            seen.add(text)
+            acc.current = text
+            got = outcome(sch, text)
+            acc.ev()
+            acc.nt()
+            acc.transitions += 1
+            acc.cls("ws-rewritten-" + got[0])
+            acc.extra["ws-texts-" + form] += 1
+            acc.extra["ws-texts-" + label] += 1
+            last = new[-1]
+            if not terminated and last.strip() and last != last.rstrip():
+                # what follows the trailing whitespace of the last line is the end of the text
+                acc.extra["ws-unterminated-last-line-with-trailing-whitespace:" + classify(last)] += 1
+                if len(last) - len(last.rstrip()) == 1 and last == last.lstrip():
+                    acc.extra["ws-unterminated-last-line-with-one-trailing-character"] += 1
+            acc.sample(lambda: {"member": mid["name"], "seed": seed_text, "rewrites": [form, label], "text": text,
+                                "axis": "whitespace"})
+            if got != base:
+                acc.violation("layout-changes-outcome",
+                              {"member": mid, "seed": seed_text, "rewrites": [form, label], "text": text,
+                               "axis": "whitespace"},
+                              [got[0], repr(got[1:])[:300]], [base[0], repr(base[1:])[:300]],
+                              tags={"kind": "layout", "rewrite": label if got[0] != "internal" else "internal",
+                                    "seed": base[0], "got": got[0], "axis": "whitespace", "form": form},
+                              size=len(seed_text) + len(text))
+    acc.states += len(seen) - 1
+    acc.traces = acc.transitions
+
+
+# ---------------------------------------------------------------------------
+# the derivation axis (wave 5): WHERE a container's declarations and its key type come from.  The containers <p>
+# and <q> of the key-type family are either plain (their own declarations under their own key type, as above) or
+# DERIVED: the declarations sit in a base type with a key type of its own, and the container extends that base
+# type, inheriting or overriding the key type.  What may be rewritten on a key line is decided by the effective key
+# type of the container the line is in; what the inherited names were declared under is none of the text's business.
+
+KX_BASE = (None, "identifier", "ipaddr-or-hostname")               # key type of a plain container / of a base type
+KX_OVERRIDE = ("basic-key", "identifier", "ipaddr-or-hostname")    # explicit key type of a derived type
+KX_WILD = {"quick": ("base", "none"), "thorough": ("base", "derived", "none")}   # where the wildcard map is declared
+KX_TOP = {"quick": (None,), "thorough": (None, "identifier")}
+KX_DEPTHS = (0, 2)          # (all rewrites, letter-case / empty-pair rewrites)
+
+
+def kx_variants(tier):
+    """-> (plain variants, derived variants).  A derived type either inherits the base's key type or names one that
+    differs from it."""
+    plain = [("plain", kt) for kt in KX_BASE]
+    derived = []
+    for kb in KX_BASE:
+        for kd in ("inherit",) + tuple(k for k in KX_OVERRIDE if k != (kb or "basic-key")):
+            for wild in KX_WILD[tier]:
+                derived.append(("derived", kb, kd, wild))
+    return plain, derived
+
+
+def kx_pairs(tier):
+    """(variant of p, variant of q): quick - exactly one of the two derived (every variant, next to every plain
+    partner), or both derived in the same way; thorough - every pair with at least one derived container."""
+    plain, derived = kx_variants(tier)
+    if tier == "quick":
+        return [(a, b) for a in plain for b in derived] + [(a, b) for a in derived for b in plain] + \
+               [(a, a) for a in derived]
+    allv = plain + derived
+    return [(a, b) for a in allv for b in allv if a[0] == "derived" or b[0] == "derived"]
+
+
+def kx_types(name, variant, decl, wild):
+    """The section types for container `name`: plain - one type holding decl + the wildcard; derived - a base type
+    '<name>base' holding decl (and the wildcard, if it is declared there) and the type itself, which extends it
+    and declares one more key (and the wildcard, if it is declared there)."""
+    if variant[0] == "plain":
+        return (M.SType(name, decl + (wild,), keytype=variant[1]),)
+    _, kb, kd, where = variant
+    base = M.SType(name + "base", decl + ((wild,) if where == "base" else ()), keytype=kb)
+    own = (M.Key("Own", default="o"),) + ((wild,) if where == "derived" else ())
+    return (base, M.SType(name, own, extends=name + "base", keytype=None if kd == "inherit" else kd))
+
+
+def kx_schema(kt_top, vp, vq):
+    """The key-type family's schema (see kt_schema) with p and q built according to their variants."""
+    qt = kx_types("q", vq, (M.Key("Level", "integer", default="0"),), M.MultiKey("+", attribute="extra"))
+    pt = kx_types("p", vp, (M.Key("Level", default="d"), M.MultiKey("Mk"),
+                            M.Sect("*", "q", attribute="qs", multi=True)), M.Key("+", attribute="extra"))
+    return M.Schema(types=qt + pt, keytype=kt_top,
+                    items=(M.Key("Level", default="t"), M.MultiKey("Mk"),
+                           M.Sect("*", "p", attribute="ps", multi=True), M.Sect("*", "q", attribute="qs", multi=True)))
+
+
+def kx_vname(v):
+    return v[1] or "basic-key" if v[0] == "plain" else "%s<-%s,wild=%s" % (v[2], v[1] or "basic-key", v[3])
+
+
+def kx_shard(member, acc):
+    """One schema of the derivation family: every seed of the key-type family, its closure under the letter-case /
+    empty-pair rewrites, loaded seed first in this process."""
+    _, kt_top, vp, vq, tier = member
+    S = kx_schema(kt_top, vp, vq)
+    eff = {None: M.eff_keytype(S, None), "p": M.eff_keytype(S, "p"), "q": M.eff_keytype(S, "q")}
+    keycase = {c: (k in CI_KEYTYPES) for c, k in eff.items()}
+    xml = M.render(S)
+    mid = {"name": "derivation[top=%s,p=%s,q=%s]" % (eff[None], kx_vname(vp), kx_vname(vq)), "schema": xml}
+    sch = H.load_schema(xml)
+    acc.extra["kx-schemas"] += 1
+    # containers whose key type folds case while the names they inherit were declared under one that does not
+    folded = [c for c, v in (("p", vp), ("q", vq))
+              if v[0] == "derived" and keycase[c] and (v[1] or "basic-key") not in CI_KEYTYPES]
+    if folded:
+        acc.extra["kx-schemas-ci-type-over-cs-base"] += 1
+    if any(v[0] == "derived" and not keycase[c] and (v[1] or "basic-key") in CI_KEYTYPES
+           for c, v in (("p", vp), ("q", vq))):
+        acc.extra["kx-schemas-cs-type-over-ci-base"] += 1
+    for label, text, used in kt_seeds(tier):
+        base = outcome(sch, text)
+        acc.ev()
+        if base[0] == "internal":
+            acc.extra["seed_internal_errors(C07's)"] += 1
+            continue
+        acc.cls("kx-seed-" + base[0])
+        seed_lines = text.rstrip("\n").split("\n")
+        clo = closure(seed_lines, keycase, KX_DEPTHS[0], KX_DEPTHS[1], CASESET)
+        hit = any(c in folded for cs in used.values() for c in cs)
+        for new, path in clo:
+            t2 = "\n".join(new) + "\n"
+            acc.current = t2
+            got = outcome(sch, t2)
+            acc.ev()
+            acc.nt()
+            acc.transitions += 1
+            acc.cls("kx-rewritten-" + got[0])
+            if "key-case" in path:
+                acc.extra["kx-texts-with-key-case-rewrite"] += 1
+                if hit:
+                    acc.extra["kx-key-case-rewrites-with-a-key-in-a-ci-type-over-a-cs-base"] += 1
+            acc.sample(lambda: {"member": mid["name"], "seed": text, "rewrites": list(path), "text": t2,
+                                "axis": "derivation"})
+            if got != base:
+                lab = path[-1]
+                acc.violation("layout-changes-outcome",
+                              {"member": mid, "seed": text, "rewrites": list(path), "text": t2, "axis": "derivation"},
+                              [got[0], repr(got[1:])[:300]], [base[0], repr(base[1:])[:300]],
+                              tags={"kind": "layout", "rewrite": lab if got[0] != "internal" else "internal",
+                                    "seed": base[0], "got": got[0], "axis": "derivation"},
+                              size=len(text) + len(t2) + 100 * len(path))
+        acc.states += len(clo) + 1
+    acc.traces = acc.transitions
+    acc.current = None
+    return acc
+
+
+# ---------------------------------------------------------------------------
 # seeds
 
-LOGGER_SCHEMA = """<schema>
+LOGGER_SCHEMA ="""<schema>
   <import package='ZConfig.components.logger'/>
   <section type='eventlog' name='*' attribute='eventlog'/>
   <multisection type='logger' name='*' attribute='loggers'/>
@@ -515,13 +749,17 @@ def shard(member, acc):
                 na += 1
                 if na > cap:
                     continue
+                nth = na - 1
             else:
                 nr += 1
                 if nr > cap:
                     continue
+                nth = nr - 1
             text = H.render_events(events)
             # key case may be flipped only where every container uses basic-key (true for these members)
             explore_seed(sch, text, True, depth, acc, mid, red if len(events) <= 4 else 0)
+            if nth % WS_SEED_STRIDE[tier] == 0:
+                ws_explore(sch, text, acc, mid, tier)
     else:
         _, name, xml, texts = member[:4]
         sch = H.load_schema(xml)
@@ -532,6 +770,7 @@ def shard(member, acc):
             else:
                 kc = True
             explore_seed(sch, t, kc, depth, acc, mid, red)
+            ws_explore(sch, t, acc, mid, tier)
     return acc
 
 
@@ -548,6 +787,8 @@ def run(tier):
     ktmem = [("keytypes", kts, c, tier) for kts in itertools.product(KT_ALPHABET[tier], repeat=3)
              for c in range(KT_CHUNKS)]
     kdepth = (1, 2) if tier == "quick" else (1, 3)
+    kxmem = [("derivation", top, vp, vq, tier) for top in KX_TOP[tier] for vp, vq in kx_pairs(tier)]
+    kx_plain, kx_derived = kx_variants(tier)
     run = core.Run(
         "C15", tier, "model_checking",
         rule="breadth-first search over rewrite applications from every seed (accepted and rejected corpus texts, "
@@ -567,11 +808,43 @@ def run(tier):
              "first; and all rewritten texts in reverse with the seed last), each order in a freshly forked "
              "process in which neither a schema nor a configuration has been loaded before; every text must give "
              "the seed's outcome within its process, and the seed's outcome must be the same in both orders.  "
+             "Whitespace axis: every %s corpus seed of every member (and every %%define / logger / mapping seed) "
+             "is written under every line-termination form of %r (line terminator; last line terminated or not), "
+             "and under each form, one line at a time: every whitespace string of {every single character of %r, "
+             "every pair over %r%s} BEFORE and AFTER every non-blank line, every pair of single core characters "
+             "around it, a blank line of every content of %r and a comment line of every form of %r at every "
+             "position (so also as the unterminated last line); every text must give the seed's outcome.  "
+             "Derivation axis: the key-type family's schema with its containers <p> and <q> either plain (key "
+             "type from %r) or DERIVED - the declarations ('Level', the section slot, the wildcard map when it is "
+             "declared in the base) sit in a base type with a key type from %r and the container extends it, "
+             "inheriting the key type or overriding it with a differing one of %r, declaring one more key (and the "
+             "wildcard map when it is declared there; wildcard in %r); top-level key type from %r; pairs (p, q): "
+             "%s; the same seeds as the key-type axis, from each seed the letter-case / empty-pair rewrites to "
+             "depth %d (key case only on the lines of containers whose EFFECTIVE key type is case-insensitive), "
+             "loaded seed first in one process.  "
              "states = distinct texts, transitions = loads.  Non-trivial = rewritten text differing from its seed "
-             "in a non-blank line (key-type axis: counted per load order)."
+             "in a non-blank line (key-type axis: counted per load order; whitespace and derivation axes: every "
+             "rewritten text - it differs from its seed in at least one character)."
              % (depth, KT_ALPHABET[tier], CI_KEYTYPES, 2, 4 if tier == "quick" else 5,
-                KT_SPELLINGS[tier], kdepth[0], kdepth[1]),
+                KT_SPELLINGS[tier], kdepth[0], kdepth[1],
+                "capped" if WS_SEED_STRIDE[tier] == 1 else "%d-th capped" % WS_SEED_STRIDE[tier],
+                [ws_form_name(*f) for f in WS_FORMS[tier]], WS_CHARS[tier], WS_CORE[tier],
+                "" if tier == "quick" else ", every triple over blank and tab", ws_blanks(tier), WS_COMMENTS,
+                KX_BASE, KX_BASE, KX_OVERRIDE, KX_WILD[tier], KX_TOP[tier],
+                "exactly one of the two derived, in every variant next to every plain partner, or both derived in "
+                "the same variant" if tier == "quick" else "every pair with at least one derived container",
+                KX_DEPTHS[1]),
         bounds={"members": len(mem), "depth": depth,
+                "whitespace_axis": {"forms": [ws_form_name(*f) for f in WS_FORMS[tier]],
+                                    "characters": list(WS_CHARS[tier]), "core_characters": list(WS_CORE[tier]),
+                                    "strings_per_side": len(ws_strings(tier)), "blank_line_contents": ws_blanks(tier),
+                                    "comment_lines": list(WS_COMMENTS), "lines_touched_at_once": 1,
+                                    "corpus_seed_stride": WS_SEED_STRIDE[tier]},
+                "derivation_axis": {"plain_variants": len(kx_plain), "derived_variants": len(kx_derived),
+                                    "base_key_types": list(KX_BASE), "override_key_types": ["inherit"] + list(KX_OVERRIDE),
+                                    "wildcard_declared_in": list(KX_WILD[tier]), "top_key_types": list(KX_TOP[tier]),
+                                    "schemas": len(kxmem), "seeds_per_schema": len(kt_seeds(tier)),
+                                    "depth_all_rewrites": KX_DEPTHS[0], "depth_case_rewrites": KX_DEPTHS[1]},
                 "keytype_axis": {"key_types": list(KT_ALPHABET[tier]), "containers": 3,
                                  "schemas": len(KT_ALPHABET[tier]) ** 3, "seeds_per_schema": len(kt_seeds(tier)),
                                  "spellings": list(KT_SPELLINGS[tier]), "load_orders": list(KT_ORDERS),
@@ -584,6 +857,7 @@ def run(tier):
     # the key-type axis first: its children must be forked from processes that have not loaded anything
     core.pmap(kt_shard, ktmem, run.acc, shard_budget=3000.0)
     core.pmap(shard, mem, run.acc, shard_budget=3000.0)
+    core.pmap(kx_shard, kxmem, run.acc, shard_budget=3000.0)
     a = run.acc
     run.require(a.classes.get("seed-tree", 0) > 50 and a.classes.get("seed-rejected", 0) > 50, "few seeds")
     run.require(a.classes.get("rewritten-tree", 0) > 1000, "few accepted rewritten texts")
@@ -598,6 +872,34 @@ def run(tier):
                 "key-type axis: the two load orders were not both exercised for every seed")
     run.require(a.classes.get("kt-seed-tree", 0) > 200 and a.classes.get("kt-seed-rejected", 0) > 200 and
                 a.classes.get("kt-rewritten-tree", 0) > 5000, "key-type axis: few accepted / rejected seeds")
+    # whitespace axis
+    forms = [ws_form_name(*f) for f in WS_FORMS[tier]]
+    run.require(x.get("ws-seeds", 0) > 1000 and a.classes.get("ws-seed-tree", 0) > 400 and
+                a.classes.get("ws-seed-rejected", 0) > 400, "whitespace axis: few accepted / rejected seeds")
+    run.require(all(x.get("ws-texts-" + f, 0) > 100 * x.get("ws-seeds", 0) for f in forms),
+                "whitespace axis: a line-termination form was not exercised on every seed")
+    run.require(all(x.get("ws-texts-" + lab, 0) > 20000 for lab in
+                    ("ws-leading", "ws-trailing", "ws-both", "ws-blank-line", "ws-comment-line")),
+                "whitespace axis: a kind of whitespace variant is (nearly) missing")
+    run.require(all(x.get("ws-unterminated-last-line-with-trailing-whitespace:" + k, 0) > n
+                    for k, n in (("close", 5000), ("empty", 500), ("key", 500), ("define", 10))) and
+                x.get("ws-unterminated-last-line-with-one-trailing-character", 0) >= 5 * x.get("ws-seeds", 0) > 0,
+                "whitespace axis: few unterminated last lines (closer, empty section, key, define) that carry "
+                "trailing whitespace")
+    run.require(a.classes.get("ws-rewritten-tree", 0) > 100000 and a.classes.get("ws-rewritten-rejected", 0) > 100000,
+                "whitespace axis: few accepted / rejected rewritten texts")
+    # derivation axis
+    run.require(x.get("kx-schemas", 0) == len(kxmem) and x.get("kx-schemas-ci-type-over-cs-base", 0) >= 20 and
+                x.get("kx-schemas-cs-type-over-ci-base", 0) >= 20,
+                "derivation axis: few schemas whose derived type folds case over a case-preserving base (or the "
+                "reverse)")
+    run.require(x.get("kx-texts-with-key-case-rewrite", 0) > 20000 and
+                x.get("kx-key-case-rewrites-with-a-key-in-a-ci-type-over-a-cs-base", 0) > 5000,
+                "derivation axis: few key-case rewrites on keys of a case-insensitive type derived from a "
+                "case-preserving base")
+    run.require(a.classes.get("kx-seed-tree", 0) > 1000 and a.classes.get("kx-seed-rejected", 0) > 1000 and
+                a.classes.get("kx-rewritten-tree", 0) > 50000 and a.classes.get("kx-rewritten-rejected", 0) > 50000,
+                "derivation axis: few accepted / rejected seeds or rewritten texts")
     return run
 
 
